@@ -151,6 +151,38 @@ def suspendedBecomesCurrent (s s' : JobList) (pid : Nat) : Bool :=
 /-- the message of the KNOWN FINDING (KNOWN_FINDINGS.txt): the clause fails on the `insert` path -/
 def knownInsertMsg : String := "doc-suspended-becomes-current@insert"
 
+/-- every job of `s` other than the one in slot `except` is still in its slot, unchanged, and no slot
+    of `s'` is new: the step touched at most the job in `except` -/
+def othersUntouched (s s' : JobList) (except : Option Nat) : Bool :=
+  ((occupied s.entries).all fun i => except == some i || s'.get i == s.get i) &&
+  ((occupied s'.entries).all fun i => (s.get i).isSome)
+
+/-- "`fg` … If the resumed job finishes, it is removed from the job list" and job_control.md "Job
+    list": a job that terminated in the background stays in the list until `jobs` or `wait`
+    retrieves its status.  So `fg` may touch only the job it resumes (`target`), and may remove it
+    only if it ends in a state that is not alive (`final`). -/
+def fgLicence (s s' : JobList) (target : Option Nat) (final : Option PState) : Bool :=
+  othersUntouched s s' target &&
+  (match target with
+   | none => true
+   | some t => (s'.get t).isSome || (s.get t).isNone || (match final with | some f => !f.isAlive | none => false))
+
+/-- `bg` removes nothing and records no state change -/
+def bgLicence (s s' : JobList) : Bool :=
+  ((occupied s.entries).all fun i =>
+    match s.get i, s'.get i with
+    | some j, some j' => j'.pid == j.pid && j'.state == j.state
+    | _, _ => false) &&
+  ((occupied s'.entries).all fun i => (s.get i).isSome)
+
+/-- `wait` removes only jobs that have finished or are not owned; every other job is untouched -/
+def waitLicence (s s' : JobList) : Bool :=
+  ((occupied s.entries).all fun i =>
+    match s.get i with
+    | none => true
+    | some j => s'.get i == some j || ((s'.get i).isNone && (!j.state.isAlive || !j.owned))) &&
+  ((occupied s'.entries).all fun i => (s.get i).isSome)
+
 /-- per-operation documentation checks evaluated on the model's own step `s → s'` with output `o` -/
 def docCheck (s s' : JobList) (op : Op) (o : Out) : Option String :=
   match op with
@@ -166,11 +198,13 @@ def docCheck (s s' : JobList) (op : Op) (o : Out) : Option String :=
          | some idxs => if jobsRemovalOk s s' idxs then none else some "jobs-removal"
          | none => some "jobs-designation")
       | none => none
+  | .wait _ => if waitLicence s s' then none else some "wait-removal"
   | .bg _ args =>
     -- "The (last) resumed job's process ID is set to the `!` special parameter."  With several
     -- operands an earlier one changes what `%+`/`%-` mean for a later one (the resumed job becomes
     -- the current job), so the check is made for at most one operand.
-    if o.status ≠ 0 then none
+    if !bgLicence s s' then some "bg-removal"
+    else if o.status ≠ 0 then none
     else
       let target : Option (Option Nat) :=
         match (parseArgs [] args) with
@@ -184,7 +218,7 @@ def docCheck (s s' : JobList) (op : Op) (o : Out) : Option String :=
          | some j => if s'.lastAsync = j.pid then none else some "bg-async"
          | none => some "bg-designation")
   | .fg _ _ outcome args =>
-    if o.errs ≠ [] then none
+    if o.errs ≠ [] then (if othersUntouched s s' none then none else some "fg-others")
     else
       let target : Option Nat :=
         match (parseArgs [] args) with
@@ -200,7 +234,8 @@ def docCheck (s s' : JobList) (op : Op) (o : Out) : Option String :=
            -- "If the resumed job finishes, it is removed from the job list.  If the job gets
            -- suspended again, it is set as the current job."
            let final := if j.state.isAlive then outcome else j.state
-           if final.isStopped then (if s'.currentJob = some i then none else some "fg-current")
+           if !fgLicence s s' (some i) (some final) then some "fg-others"
+           else if final.isStopped then (if s'.currentJob = some i then none else some "fg-current")
            else if (s'.get i).isNone then none else some "fg-removal")
   | .wres arg =>
     (match waitSpecOf arg with
